@@ -88,12 +88,25 @@ pub fn byte_stream(ctx: &mut Ctx, cfg: &StreamCfg, f: &mut dyn FnMut(&mut Ctx, &
     let per = |total: u64| total / n as u64 + if (shard as u64) < total % n as u64 { 1 } else { 0 };
     let mut r = Rng::new(mix(&[ctx.seed, shard as u64, 0x5712]));
     let corpus = if cfg.corpus || cfg.n_mutate > 0 { gen::corpus() } else { vec![] };
+    // Echo cases: every monitored call is a pure function of its input, so each random phase
+    // re-issues some inputs (directly after themselves, or after one other call). Each echo is
+    // judged by the same oracle; a result that depends on the call history (memo, cache keyed on
+    // too little) shows up as a violation on the echo.
+    let mut prev: Vec<u8> = Vec::new();
     for _ in 0..per(cfg.n_struct) {
         ctx.rng_state = Some(r.state());
         let sl = gen::gen_sloc(&mut r, true, true);
         let b = gen::render_random(&sl.tokens(), &mut r);
         mon::begin_case(&b);
         f(ctx, &b, Src::Struct);
+        if r.chance(1, 8) {
+            f(ctx, &b, Src::Struct);
+        }
+        if r.chance(1, 16) && !prev.is_empty() {
+            mon::begin_case(&prev);
+            f(ctx, &prev, Src::Struct);
+        }
+        prev = b;
     }
     for i in 0..per(cfg.n_mutate) {
         ctx.rng_state = Some(r.state());
@@ -108,6 +121,14 @@ pub fn byte_stream(ctx: &mut Ctx, cfg: &StreamCfg, f: &mut dyn FnMut(&mut Ctx, &
         let b = gen::mutate(&base, &mut r);
         mon::begin_case(&b);
         f(ctx, &b, Src::Mutate);
+        if r.chance(1, 8) {
+            f(ctx, &b, Src::Mutate);
+        }
+        if r.chance(1, 16) && !prev.is_empty() {
+            mon::begin_case(&prev);
+            f(ctx, &prev, Src::Mutate);
+        }
+        prev = b;
     }
     ctx.rng_state = None;
     if cfg.corpus {
